@@ -217,6 +217,7 @@ func ndNewRun(t *testing.T, cfg ndConfig, replay []string) *ndRun {
 // checkWeights: the tie of the "fixed weights" idealisation — the real credential code gives every account its stake.
 func (r *ndRun) checkWeights() error {
 	l := r.refLedger()
+	scratch := ndGetWorld()
 	for k := 0; k < r.cfg.n; k++ {
 		for _, s := range []step{propose, soft, cert, next, next + 2, late, redo, down} {
 			pv := proposalValue{OriginalPeriod: 0, OriginalProposer: r.world.parts[k].Parent}
@@ -224,7 +225,7 @@ func (r *ndRun) checkWeights() error {
 			if s == down {
 				pv = bottom
 			}
-			uv, err := r.byzSign(r.nodes[k], r.start, 0, s, pv, l)
+			uv, err := ndSignWith(scratch, k, r.start, 0, s, pv, l)
 			if err != nil {
 				return err
 			}
